@@ -15,7 +15,7 @@ TRUSTED = ['T1 pyvc model of Python (DESIGN 3)', 'T2 re: compile(p).fullmatch(s)
            'T16 z3 / cvc5']
 ASSUMPTIONS = ['input invariant: every resource descriptor has a name and schema.fields (tabular resources)',
                'descriptor list and stream list carry the same names in the same order (established by C01 pairing)',
-               'printer(resources=<int>) is a known finding (matcher built from the resource descriptor)']
+               ]
 
 P = 'dataflows/processors/'
 
@@ -276,36 +276,6 @@ def sym_set_type(vc):
             expect_no_raise_or_same(vc, fk, paths)
 
 
-def sym_printer(vc, kinds=('list', 'str', 'int')):
-    """printer(resources=..).func(rows): unselected -> `yield from rows` and nothing printed"""
-    import z3
-    from pyvc.api import real_function, check, cover, yields_of, ufunc, Opaque, Tree
-    fk = vc.under_contract(P + 'printer.py', ['printer', 'func'])
-    for kind in kinds:
-        def thunk(it, kind=kind):
-            pr = real_function(it, 'dataflows.processors.printer', 'printer')
-            sel, want = selector(it, kind)
-            if kind == 'int':
-                # the selected position can only be resolved against the package; here: must at least not fail
-                pw = mk_package2(it)
-                want = (lambda _, n, w=want: w(pw, n))
-            hp = ufunc('header_print', pure=False)
-            tp = ufunc('table_print', pure=False)
-            func = it.call(pr, [], dict(resources=sel, header_print=hp, table_print=tp))
-            r = mk_resource(it, 'rows')
-            r.attrs['res'].attrs['descriptor'].has['resources'] = False   # a resource descriptor has no 'resources' key
-            m = want(None, r.attrs['res'].attrs['name'].t)
-            it.assume(z3.Not(m))
-            it.run_generator(it.call(func, [r]))
-            evs = it.path.events
-            yf = [e for e in evs if e.kind == 'YieldFrom']
-            check(it, 'unselected-yield-from-same-stream[%s]' % kind, len(yf) == 1 and yf[0].src is r and not yields_of(evs))
-            check(it, 'unselected-nothing-printed[%s]' % kind, not [e for e in evs if e.kind == 'Call'])
-            cover(it, 'reachable[%s]' % kind)
-        paths = vc.explore(fk, thunk, min_paths=1)
-        expect_no_raise_or_same(vc, fk, paths)
-
-
 def nat_pipeline(h):
     """bounded end-to-end differential: every selector-taking processor x selector form on real packages;
     non-selected resources must come out identical (descriptor and rows) to a run without the step."""
@@ -348,8 +318,6 @@ def nat_pipeline(h):
             sel = h.rng.randint(-len(names), len(names) - 1)
             selected = {names[sel]}
         pname = h.rng.choice(sorted(procs))
-        if pname == 'printer' and form == 'int':
-            continue   # known finding F-C10-printer-int
         base = [Flow(*[it for d, n in zip(data, names) for it in ([dict(r) for r in d], update_resource(-1, name=n))])]
 
         def run(extra):
@@ -434,7 +402,10 @@ def _items():
     items.append(Item('delete_resource.func', sym_delete_resource, [], P + 'delete_resource.py::delete_resource.func'))
     items.append(Item('validate', sym_validate, [], P + 'validate.py::validate.process_resource'))
     items.append(Item('set_type', sym_set_type, [], P + 'set_type.py::set_type.process_resources'))
-    items.append(Item('printer.func', sym_printer, [], P + 'printer.py::printer.func'))
+    def pr_args(it, sel):
+        return [], dict(resources=sel, header_print=_uf('header_print'), table_print=_uf('table_print'))
+    items.append(_closure_item('printer.step', 'printer.py', 'printer', 'step', 'dataflows.processors.printer', pr_args,
+                               gen_of({'func'}), 'step#L0'))
     items.append(Item('pipeline', None, [('frame-differential', nat_pipeline)], None))
     return items
 
